@@ -68,6 +68,8 @@ def gen_cases(rng, tier):
             if not G.fits(cfg["ver"], cfg["dialog"], 2, len(cfg["out"])):
                 cfg["out"] = cfg["out"][:1]
         cfg["turns"] = [G.gen_turn(rng, cfg, k + 1, w_in, w_out) for k in range(rng.choice([1, 2, 2, 3, 4]))]
+        if rng.random() < 0.12 and G.fits(cfg["ver"], cfg["dialog"], len(cfg["in"]), len(cfg["out"]), sc=True):
+            G.add_selfcheck(rng, cfg)
         cases.append(cfg)
     # every (version, dialog, exceptions) x rail shape, every turn position rejected / rewritten once
     for cfg in G.all_cfgs(IN_SHAPES if tier == "thorough" else IN_SHAPES[:3], carries=("messages", "state") if tier == "thorough" else ("messages",)):
@@ -102,7 +104,7 @@ def gen_cases(rng, tier):
 
 def turn_oracle(case, tc, to):
     steps = to["steps"]
-    cfg_in = case["in"]
+    cfg_in = G.eff_in(case)
     calls = [(idx, s) for idx, s in enumerate(steps) if s[0] == "rail" and s[1] == "in"]
     ids = [s[2] for _, s in calls]
     # "processed by all configured input rails, in the configured order": what ran is a prefix of the configured order ...
